@@ -7,6 +7,7 @@ import Ubx.Model.PyReaderHosts
 import Ubx.Model.PyConfigHosts
 import Ubx.Model.PyWalkHosts
 import Ubx.Model.PyDoHosts
+import Ubx.Model.PyCfgKeyHosts
 /-!
 # Line-protocol driver: one operation per input line, one answer per output line.
 The Python harness (tools/harness) sends the same operations to the real pyubx2 and diffs.
@@ -373,6 +374,11 @@ def handlePyl (toks : List String) : String :=
         | some k => pylConstruct c i (toNatD mode) (bf = "1") k
         | none => "bad-op")
      | _, _ => "bad-op")
+  | ["pyl-cfgkey", k] =>
+    (match (Py.runFn (Py.ckHost Gen.ctx) pylFuel Gen.Code.fn_cfgkey2name [.int (toNatD k)] ()).1 with
+     | .ok (.tuple [.str n, .host (.ty t)]) => s!"ok {nameStr n} {tyStr t}"
+     | .ok _ => "bad-value"
+     | .error e => excStr e)
   | "pyl-cfgset" :: layers :: txn :: rest =>
     let items := rest.map (fun t => match t.splitOn "=" with
       | [k, v] => (parseVal v).map (fun pv => (parseCfgKey k, pv))
